@@ -63,6 +63,9 @@ func init() {
 type Coin uint64
 
 func ParseZCN(c float64) (Coin, error) {
+	if math.IsNaN(c) || math.IsInf(c, 0) {
+		return 0, ErrInvalidFloat
+	}
 	d := decimal.NewFromFloat(c)
 	if d.Sign() == -1 {
 		return 0, ErrNegativeValue
